@@ -18,6 +18,7 @@ def step (line : String) : String :=
   | "C24" :: ts => stepC24 ts
   | "C29" :: ts => stepC29 ts
   | "C35" :: ts => stepC35 ts
+  | "C38" :: ts => stepC38 ts
   | _ => "bad-op"
 
 partial def loop (h : IO.FS.Stream) (out : IO.FS.Stream) : IO Unit := do
